@@ -14,7 +14,7 @@ use sha2::{Digest, Sha512};
 
 pub const DEFAULT_TAG: u32 = 0xD0D0;
 
-#[derive(Clone, Debug, PartialEq, Eq, Hash)]
+#[derive(Clone, Debug, PartialEq, Eq, Hash, serde::Serialize, serde::Deserialize)]
 pub enum KsfSpec {
     /// delegate to `opaque_ke::ksf::Identity`
     Identity,
@@ -31,43 +31,6 @@ pub enum KsfSpec {
 }
 
 impl KsfSpec {
-    pub fn to_json(&self) -> serde_json::Value {
-        match self {
-            KsfSpec::Identity => serde_json::json!("Identity"),
-            KsfSpec::Argon2 { m_kib, t, p } => serde_json::json!({"Argon2": [m_kib, t, p]}),
-            KsfSpec::Argon2Default => serde_json::json!("Argon2Default"),
-            KsfSpec::H(i) => serde_json::json!({"H": i}),
-            KsfSpec::FailAt(n, then) => serde_json::json!({"FailAt": [n, then.to_json()]}),
-        }
-    }
-    pub fn from_json(v: &serde_json::Value) -> Option<Self> {
-        if let Some(s) = v.as_str() {
-            return match s {
-                "Identity" => Some(KsfSpec::Identity),
-                "Argon2Default" => Some(KsfSpec::Argon2Default),
-                _ => None,
-            };
-        }
-        if let Some(a) = v.get("Argon2") {
-            let a = a.as_array()?;
-            return Some(KsfSpec::Argon2 {
-                m_kib: a.first()?.as_u64()? as u32,
-                t: a.get(1)?.as_u64()? as u32,
-                p: a.get(2)?.as_u64()? as u32,
-            });
-        }
-        if let Some(h) = v.get("H") {
-            return Some(KsfSpec::H(h.as_u64()? as u8));
-        }
-        if let Some(f) = v.get("FailAt") {
-            let a = f.as_array()?;
-            return Some(KsfSpec::FailAt(
-                a.first()?.as_u64()? as u32,
-                Box::new(KsfSpec::from_json(a.get(1)?)?),
-            ));
-        }
-        None
-    }
     /// are two specs the same function (ignoring fault plans)?
     pub fn same_function(&self, other: &KsfSpec) -> bool {
         self.base().canonical() == other.base().canonical()
